@@ -1829,15 +1829,26 @@ def _loop_constants(func, name):
     tuples); None when it is bound in any other way"""
     vals = []
     bound_elsewhere = False
+
+    def literal(it):
+        # a literal tuple / list, or a local bound once to one
+        if isinstance(it, ast.Name):
+            ds = [a.value for a in ast.walk(func.node)
+                  if isinstance(a, ast.Assign) and len(a.targets) == 1 and
+                  isinstance(a.targets[0], ast.Name) and
+                  a.targets[0].id == it.id]
+            if len(ds) == 1 and it.id != name:
+                return ds[0]
+        return it
     for n in ast.walk(func.node):
-        if isinstance(n, ast.For):
+        if isinstance(n, (ast.For, ast.comprehension)):
             tg = n.target
             elts = tg.elts if isinstance(tg, ast.Tuple) else [tg]
             pos = [i for i, x in enumerate(elts)
                    if isinstance(x, ast.Name) and x.id == name]
             if not pos:
                 continue
-            it = n.iter
+            it = literal(n.iter)
             if not isinstance(it, (ast.Tuple, ast.List)):
                 return None
             for item in it.elts:
@@ -1855,7 +1866,8 @@ def _loop_constants(func, name):
                 isinstance(n.ctx, (ast.Store, ast.Del)):
             bound_elsewhere = True
     # the Store contexts of the for targets themselves are counted above
-    n_for = sum(1 for n in ast.walk(func.node) if isinstance(n, ast.For)
+    n_for = sum(1 for n in ast.walk(func.node)
+                if isinstance(n, (ast.For, ast.comprehension))
                 for x in ast.walk(n.target)
                 if isinstance(x, ast.Name) and x.id == name)
     n_store = sum(1 for n in ast.walk(func.node)
